@@ -25,7 +25,7 @@ META = {
         "both by the proxy, the proxy's logger runs before the message is finalised by the proxy and on every path that "
         "reaches the forwarding decision, and an unclaimed message leaves the function finalised (sent). Handler "
         "exceptions do not skip the second handler or the addon hooks. _try_call_hook lets no exception escape when "
-        "swallowing is on. B (bounded): three real addons x behaviours x hook points x direction x reliability on the real "
+        "swallowing is on. AddonManager._call_module_hooks / _call_all_addon_hooks: every addon object (then its module) is asked exactly once, in order, until one answers truthy; that answer ends the chain and is the result, otherwise None. B (bounded): three real addons x behaviours x hook points x direction x reliability on the real "
         "proxy; ownership-operation sequences up to length 4."),
     "trusted_base": [
         "ProxiedCircuit.prepare_message/drop_message, Circuit.send, Message.take: contracts verified under C05",
@@ -41,6 +41,7 @@ HOOK_HAVOC = ["message.finalized", "message.queued", "message.dropped"]
 
 
 def register(reg):
+    from contracts import c07b_contracts
     c05.register(reg)
     from contracts import events_contracts
     if "hippolyzer.lib.base.events:Event.notify" not in reg.fns:
@@ -140,7 +141,10 @@ def register(reg):
       vars={"result": "Obj:Message"}, post_of="hippolyzer.lib.base.message.message:Message.take",
       hyps=["old(own_ok(self))", "self.dropped == old(self.dropped)"],
       goal="implies(self.dropped, self.finalized) and implies(old(self.finalized), self.queued == old(self.queued))")
+    c07b_contracts.register_p2(reg, PID)
 
 
 from contracts import c07_native
+
+
 BOUNDED = [c07_native.bounded_addons]
